@@ -1,3 +1,4 @@
+import PB.Gen.Managed
 /-
 Model of managed execution in /repo/modules (worker.go, tasks.go, microtasks.go, events.go, error.go,
 modules.go, start.go, stop.go, mgmt.go) and of the request wrapper in /repo/api/router.go, for C06.
@@ -20,7 +21,13 @@ namespace PB.Managed
 inductive PCls where
   | nil      -- `panic(nil)` as written by the caller
   | nilerr   -- *runtime.PanicNilError
-  | err      -- an error value
+  | err      -- an error value that is and wraps none of the sentinels below (also: a typed-nil error pointer,
+             -- a `*ModuleError`, an error whose `Error()` panics)
+  | errCanceled   -- an error `e` with `errors.Is(e, context.Canceled)`: the sentinel itself, `fmt.Errorf("…%w")`,
+                  -- `errors.Join`, a type with an `Is` method
+  | errRestart    -- … `errors.Is(e, ErrRestartNow)`
+  | errDeadline   -- … `errors.Is(e, context.DeadlineExceeded)`
+  | errCleanExit  -- … `errors.Is(e, ErrCleanExit)`
   | str      -- a string
   | rt       -- a runtime.Error (index out of range, nil dereference, division by zero, nil map)
   | strct    -- a struct value
@@ -32,6 +39,21 @@ inductive PCls where
 def recovered : PCls → PCls
   | .nil => .nilerr
   | c => c
+
+/-- The sentinel errors which the code of package modules compares errors with (`errors.Is`): worker.go
+    (`StartWorker`, `runServiceWorker`), tasks.go (`executeWithLocking`), start.go (`ErrCleanExit`);
+    `context.DeadlineExceeded` is compared with nowhere and stands for "any other sentinel". -/
+inductive Sentinel where
+  | canceled | restartNow | deadline | cleanExit
+  deriving DecidableEq, Repr, Inhabited
+
+/-- `errors.Is(v, s)` for a panic value `v` that is an error. -/
+def PCls.wraps : PCls → Sentinel → Bool
+  | .errCanceled, .canceled => true
+  | .errRestart, .restartNow => true
+  | .errDeadline, .deadline => true
+  | .errCleanExit, .cleanExit => true
+  | _, _ => false
 
 /-- Outcome of one run of a managed user function. -/
 inductive Outcome where
@@ -81,6 +103,51 @@ inductive Ret where
   | restart
   | panicErr (r : Report)
   deriving DecidableEq, Repr, Inhabited
+
+def Ret.isNil : Ret → Bool
+  | .nil => true
+  | _ => false
+
+/-- A `*ModuleError` takes part in `errors.Is` / `errors.As` chains only through methods `Unwrap`, `Is`, `As`;
+    error.go declares none of them (regenerated from the source on every run). With one of them declared the
+    model lets the comparison look through the panic error at the panic value. -/
+def panicErrOpaque : Bool := PB.Gen.Managed.moduleErrorChainMethods.isEmpty
+
+/-- `errors.Is(err, s)` for what `runWorker` returned. -/
+def Ret.is (r : Ret) (s : Sentinel) : Bool :=
+  match r with
+  | .nil => false
+  | .err => false
+  | .canceled => s == .canceled
+  | .restart => s == .restartNow
+  | .panicErr rp => !panicErrOpaque && rp.val.wraps s
+
+/-- What the service-worker loop does after a run. -/
+inductive SvcAct where
+  | finished     -- `return`
+  | restartNow   -- continue with the loop
+  | backoff      -- failCnt++, select { time.After(sleepFor) | m.Ctx.Done() }
+  deriving DecidableEq, Repr, Inhabited
+
+/-- A case condition of the switch in `runServiceWorker`, as written in the source. -/
+def svcCond (c : String) (r : Ret) : Bool :=
+  if c == "err == nil" then r.isNil
+  else if c == "errors.Is(err, context.Canceled)" then r.is .canceled
+  else if c == "errors.Is(err, ErrRestartNow)" then r.is .restartNow
+  else if c == "errors.Is(err, context.DeadlineExceeded)" then r.is .deadline
+  else c == "default"
+
+def svcActOf (a : String) : SvcAct :=
+  if a == "return" then .finished else if a == "loop" then .restartNow else .backoff
+
+/-- A tagless Go `switch`: the first case whose condition holds. -/
+def svcDecideIn : List (String × String) → Ret → SvcAct
+  | [], _ => .restartNow      -- no case applies: the loop goes on
+  | (c, a) :: rest, r => if svcCond c r then svcActOf a else svcDecideIn rest r
+
+/-- The decision of `runServiceWorker` (worker.go:92-116) as a function of the error `runWorker` returned,
+    over the case list regenerated from the source. -/
+def svcDecide (r : Ret) : SvcAct := svcDecideIn PB.Gen.Managed.svcSwitch r
 
 /-- What arrives on the `ctrlFnError` channel of `startCtrlFn`. -/
 inductive CtrlRet where
@@ -179,11 +246,10 @@ def httpStatus (afterWrite : Bool) : Outcome → Nat
   | .panic _ => if afterWrite then 202 else 500
   | _ => if afterWrite then 202 else 500
 
-/-- Should the service-worker loop run the function again after this outcome? -/
-def Outcome.restarts : Outcome → Bool
-  | .ok => false
-  | .canceled => false
-  | _ => true
+/-- Does the service-worker loop run the function again after this outcome? (The decision the code takes
+    on the error `runWorker` makes of the outcome.) -/
+def Outcome.restarts (o : Outcome) : Bool :=
+  svcDecide (recoverRet .worker o).1 != .finished
 
 /-! ### Programs. `ch` resolves the only nondeterministic choice (back-off timer vs. module context). -/
 
@@ -218,14 +284,15 @@ def svcStep (env : Env) (it : Item) (ch : Bool) : Option (Item × Eff) :=
   | 0 => some ({ it with pc := 1 }, { dw := 1 })
   | 1 => if env.stopFlag then some ({ it with pc := 5 }, {}) else some ({ it with pc := 2 }, {})  -- m.IsStopping()
   | 2 => some ({ it.take with pc := 3 }, {})                        -- fn(m.Ctx) inside runWorker
-  | 3 =>                                                            -- runWorker's recover, then the switch
+  | 3 =>                                                            -- runWorker's recover, then the switch on `err`
     match recoverRet .worker it.cur with
-    | (r, some rp) =>                                               -- a panic is an error like any other: back off
-      some ({ it with pc := 4, ret := some r, reps := it.reps + 1, failCnt := it.failCnt + 1 }, { rep := some rp })
-    | (.nil, none) => some ({ it with pc := 5, ret := some .nil }, {})
-    | (.canceled, none) => some ({ it with pc := 5, ret := some .canceled }, {})
-    | (.restart, none) => some ({ it with pc := 1, ret := some .restart }, {})
-    | (r, none) => some ({ it with pc := 4, ret := some r, failCnt := it.failCnt + 1 }, {})
+    | (r, rp) =>
+      let n := if rp.isSome then 1 else 0
+      match svcDecide r with
+      | .finished => some ({ it with pc := 5, ret := some r, reps := it.reps + n }, { rep := rp })
+      | .restartNow => some ({ it with pc := 1, ret := some r, reps := it.reps + n }, { rep := rp })
+      | .backoff =>
+        some ({ it with pc := 4, ret := some r, reps := it.reps + n, failCnt := it.failCnt + 1 }, { rep := rp })
   | 4 =>                                                            -- select: time.After(sleepFor) | m.Ctx.Done()
     if ch then (if env.ctxDone then some ({ it with pc := 5 }, {}) else none)
     else some ({ it with pc := 1 }, {})
@@ -404,17 +471,34 @@ structure St where
   stopFlag : Bool := false
   ctxDone : Bool := false  -- m.Ctx cancelled
   stopCompleted : Bool := true   -- abool.NewBool(true) in initNewModule
+  chanSet : Bool := true   -- errorReportingChannel != nil (SetErrorReportingChannel was called)
+  cap : Nat := 0           -- capacity of errorReportingChannel
   feed : List Report := [] -- what was delivered to errorReportingChannel, in order
-  cap : Nat := 0           -- room in errorReportingChannel (the send is non-blocking)
-  dropped : Nat := 0       -- reports that found the channel full
+  taken : Nat := 0         -- how many of them the consumer has received (the others sit in the buffer)
+  waiting : Nat := 0       -- consumers parked in a receive on the (empty) channel
+  dropped : Nat := 0       -- reports that could not be delivered (no channel; buffer full and nobody receiving)
   last : Option Report := none -- lastReportedError
   items : List Item := []
   deriving Repr, Inhabited
 
-/-- `ModuleError.Report()` (error.go:98-119): remember as last, non-blocking send. -/
+/-- A send on the reporting channel can proceed at once: a consumer is parked in a receive, or the buffer has room. -/
+def St.canSend (s : St) : Bool := s.chanSet && (0 < s.waiting || s.feed.length < s.taken + s.cap)
+
+/-- `ModuleError.Report()` (error.go:98-119), under `reportingLock`: remember as last; if a channel is set,
+    `select { case errorReportingChannel <- me: default: }`. -/
 def St.report (s : St) (r : Report) : St :=
-  if s.feed.length < s.cap then { s with last := some r, feed := s.feed ++ [r] }
+  if !s.chanSet then { s with last := some r, dropped := s.dropped + 1 }
+  else if 0 < s.waiting then
+    { s with last := some r, feed := s.feed ++ [r], taken := s.taken + 1, waiting := s.waiting - 1 }
+  else if s.feed.length < s.taken + s.cap then { s with last := some r, feed := s.feed ++ [r] }
   else { s with last := some r, dropped := s.dropped + 1 }
+
+/-- Is the send in `Report()` a plain `ch <- me`? (Regenerated from the source: it is the non-blocking select.) -/
+def reportSendBlocking : Bool := PB.Gen.Managed.reportSend != "select-default"
+
+/-- `Report()` would block the reporting goroutine (inside the deferred recover block, before the counters
+    are decremented): only a blocking send, on a set channel that cannot take the report now. -/
+def St.reportBlocks (s : St) : Bool := reportSendBlocking && s.chanSet && !s.canSend
 
 /-- `checkIfStopComplete` (modules.go:263-300): evaluated and signalled under the module lock, hence one atomic step. -/
 def St.check (s : St) : St :=
@@ -442,6 +526,7 @@ def St.apply (s : St) (i : Nat) (it' : Item) (e : Eff) : St :=
 
 inductive Act where
   | item (i : Nat) (ch : Bool)    -- item i takes its next atomic step
+  | recv                          -- the consumer of the error channel receives (or parks in the receive)
   | spawn (it : Item)             -- a new managed execution arrives
   | queue (i : Nat) (outs : List Outcome)  -- an idle task is queued again (Task.Queue & co.)
   deriving Repr
@@ -457,7 +542,11 @@ def step (s : St) : Act → Option St
     | some it =>
       match itemStep s.env it ch with
       | none => none
-      | some (it', e) => some (s.apply i it' e)
+      | some (it', e) => if e.rep.isSome && s.reportBlocks then none else some (s.apply i it' e)
+  | .recv =>
+    if !s.chanSet then none
+    else if s.taken < s.feed.length then some { s with taken := s.taken + 1 }
+    else some { s with waiting := s.waiting + 1 }
   | .spawn it => if it.fresh then some { s with items := s.items ++ [it] } else none
   | .queue i outs =>
     match s.items[i]? with
